@@ -349,3 +349,27 @@ int sweep_rec(stripe_t *s, uint64_t gone, int dest, int mode, const char *prop) 
                     s->c.be, s->c.k, s->c.m, s->c.hd, (unsigned long long)s->len, s->c.ct);
     return v;
 }
+
+/* ---------------------------------------------------------------- enclen */
+typedef struct { cfg_t c; uint64_t len; } enclen_a;
+static void run_enclen(void *va, FILE *out) {
+    enclen_a *a = va;
+    int desc = cfg_desc(a->c);
+    size_t maplen = (1ull << 32) + (1ull << 21);
+    char *buf = mmap(NULL, maplen, PROT_READ | PROT_WRITE, MAP_PRIVATE | MAP_ANONYMOUS | MAP_NORESERVE, -1, 0);
+    if (buf == MAP_FAILED) { fprintf(out, "harness-error mmap"); return; }
+    char **ed = NULL, **ep = NULL; uint64_t fl = 0;
+    /* an earlier, completed encode: the output variables keep their (now dangling) values */
+    if (liberasurecode_encode(desc, buf, 100, &ed, &ep, &fl) == 0) liberasurecode_encode_cleanup(desc, ed, ep);
+    if (g_progress) snprintf(g_progress, 200, "in encode of %llu bytes, be=%d (%d,%d,%d)", (unsigned long long)a->len, a->c.be, a->c.k, a->c.m, a->c.hd);
+    int rc = liberasurecode_encode(desc, buf, a->len, &ed, &ep, &fl);
+    if (rc != 0) fprintf(out, "err %d", rc);
+    else { fprintf(out, "ok-size fragment_len=%llu", (unsigned long long)fl); liberasurecode_encode_cleanup(desc, ed, ep); }
+    munmap(buf, maplen);
+}
+void op_enclen(cfg_t c, uint64_t len) {
+    enclen_a a = { c, len };
+    (void)cfg_desc(c);
+    op_begin("enclen %d %d %d %d %llu", c.be, c.k, c.m, c.hd, (unsigned long long)len); op_sep();
+    guarded(run_enclen, &a);
+}
